@@ -205,7 +205,12 @@ class Ghost:
 
     def ev_a(self, lc):
         """Adversarial evaluation, reduced mod p."""
-        s = z3.Sum([Z(0)] + [imul(term(c), v.a) for v, c in lc.m.items()])
+        items = [(v, c) for v, c in lc.m.items() if not (isinstance(c, int) and not isinstance(c, SymInt) and c == 0)]
+        if len(items) == 1 and not isinstance(items[0][1], SymInt) and items[0][1] == 1:
+            return items[0][0].a            # already reduced: 0 <= a < p
+        if not items:
+            return Z(0)
+        s = z3.Sum([Z(0)] + [imul(term(c), v.a) for v, c in items])
         return z3.simplify(s % self.p)
 
     def holds_h(self, con):
